@@ -90,6 +90,8 @@ def cases(rng, tier, shard, nshards):
             opts = dict(step=float(top / ratio ** (nst - 1)), step_ratio=ratio, num_steps=nst)
         elif rng.random() < 0.4:
             opts = dict(step_ratio=float(rng.choice([2.0, 3.0, 4.0, 8.0, 16.0])))
+        if 'step_ratio' in opts and rng.random() < 0.3:
+            opts['step_ratio'] = int(opts['step_ratio'])           # the same ratio given as a Python int
         size = 0 if rng.random() < 0.6 else int(rng.integers(2, 10))
         yield dict(kind=kind, kernel=kernel, g=str(rng.choice(GS)), a=float(np.round(rng.uniform(0.3, 1.5), 3)),
                    z0=[float(np.round(rng.uniform(-3, 3), 3)) if not cz else float(np.round(rng.uniform(-1, 1), 3)),
